@@ -796,7 +796,10 @@ func structural(v9 bool, tier string) mck.Space {
 	}
 	sort.Strings(cn)
 	sort.Strings(sn)
-	files := []string{"absent-file", "empty-file", "directory", "not-json", "array-doc", "null-doc", "nested-deep"}
+	files := []string{"absent-file", "empty-file", "directory", "not-json", "array-doc", "null-doc", "nested-deep",
+		// a file as the collector itself writes it (real keys of a real exporter), whose templates are degenerate in a way
+		// another release may have let into its cache: what is loaded is then USED - data for that very exporter and id
+		"saved-templates-all-lengths-zero", "saved-templates-without-fields", "saved-templates-all-lengths-65535", "saved-templates-field-count-larger-than-list"}
 	dims := mck.Radix{uint64(len(cn)), uint64(len(sn)), 2}
 	nStruct := dims.Size()
 	return mck.FuncSpace{N: nStruct + uint64(len(files)), F: func(idx uint64, c *mck.Ctx) {
@@ -841,6 +844,70 @@ func structural(v9 bool, tier string) mck.Space {
 			if m := e.usable(lc); m != "" {
 				c.Violation(sig+":unusable", m, what())
 			}
+			return
+		case "saved-templates-all-lengths-zero", "saved-templates-without-fields", "saved-templates-all-lengths-65535", "saved-templates-field-count-larger-than-list":
+			kinds := e.tplKinds()
+			ct := content{name: name}
+			for i := 0; i < 2 && i < len(kinds); i++ {
+				t := kinds[i]
+				t.ID = uint16(256 + i)
+				ct.tpls = append(ct.tpls, tplSpec{net.IPv4(192, 0, 2, 77), t})
+			}
+			p := filepath.Join(tmpDirGet(), "degenerate.json")
+			if err := e.dump(e.build(ct), p); err != nil {
+				fmt.Fprintln(os.Stderr, "structural: dump failed:", err)
+				os.Exit(3)
+			}
+			raw, _ := os.ReadFile(p)
+			var doc interface{}
+			if json.Unmarshal(raw, &doc) != nil {
+				fmt.Fprintln(os.Stderr, "structural: the dump is not JSON")
+				os.Exit(3)
+			}
+			var walk func(v interface{})
+			walk = func(v interface{}) {
+				switch x := v.(type) {
+				case []interface{}:
+					for _, y := range x {
+						walk(y)
+					}
+				case map[string]interface{}:
+					for k, y := range x {
+						if (k == "FieldSpecifiers" || k == "ScopeFieldSpecifiers") && y != nil {
+							l, _ := y.([]interface{})
+							switch name {
+							case "saved-templates-without-fields":
+								x[k] = []interface{}{}
+							case "saved-templates-field-count-larger-than-list":
+								if len(l) > 1 {
+									x[k] = l[:1]
+								}
+							default:
+								for _, f := range l {
+									if fm, ok := f.(map[string]interface{}); ok {
+										if name == "saved-templates-all-lengths-zero" {
+											fm["Length"] = 0
+										} else {
+											fm["Length"] = 65535
+										}
+									}
+								}
+							}
+							continue
+						}
+						if (k == "FieldCount" || k == "ScopeFieldCount") && name == "saved-templates-without-fields" {
+							x[k] = 0
+							continue
+						}
+						walk(y)
+					}
+				}
+			}
+			walk(doc)
+			data, _ = json.Marshal(doc)
+			e.checkLoad(c, sig, data, nil, what, &ct)
+			c.Outcome("degenerate saved templates used")
+			c.Sample(what)
 			return
 		case "empty-file":
 			data = []byte{}
